@@ -121,7 +121,7 @@ impl Property for C19 {
     fn rule() -> String {
         "Generated: JSON documents shaped like naive / v0.1 statements and Link v0.2 / SLSA v0.1 / v0.2 predicates with every combination \
          of optional members (timestamps with offsets, fractions, lower-case t/z), x declared _type / predicateType strings (matching and \
-         mismatching), a share with one tree edit; link metadata for the build-a-statement clause. Oracle for every accepted document: \
+         mismatching), a share with one tree edit; link metadata for the build-a-statement clause. Oracle: StatementWrapper::judge_from_value reports exactly the version that try_from_value parses (and an error when nothing parses); for every accepted document: \
          exactly one concrete format type accepts it (hook) and version() names it; to_bytes() re-parses to an equal value and \
          re-canonicalises to the same bytes; in a v0.1 statement the declared predicate type equals the version detected for the embedded \
          predicate; from_meta(link,None,Naive) carries name, materials, products, command, byproducts, env over unchanged and \
@@ -176,6 +176,14 @@ impl Property for C19 {
                 let v = doc.to_value();
                 let accepts = [serde_json::from_value::<h::StateNaive>(v.clone()).is_ok(), serde_json::from_value::<h::StateV01>(v.clone()).is_ok()];
                 let n = accepts.iter().filter(|b| **b).count();
+                // the public version probe agrees with the parser: the version it reports is the one that parses, and a
+                // document no format accepts has no version
+                let parsed_ver = StatementWrapper::try_from_value(v.clone()).ok().map(|w| w.into_trait().version());
+                match (StatementWrapper::judge_from_value(&v), &parsed_ver) {
+                    (Ok(j), Some(p)) if &j == p => {}
+                    (Err(_), None) => {}
+                    (j, p) => o.fail("C19/statement/judge-differs-from-parser", format!("judge_from_value = {:?}, parsed version = {:?} for {}", j.ok(), p, v), "the same version, or both refuse"),
+                }
                 match serde_json::from_value::<StatementWrapper>(v.clone()) {
                     Err(_) => {
                         if n > 0 {
